@@ -61,3 +61,16 @@ neu("urgency-match-to-if", [(AV, "                match snap_urgency {\n        
 neu("helper-extracted-guard", [(SRV, "        if client.latest_version_id != NIL_VERSION_ID\n            && parent_version_id != client.latest_version_id\n        {\n            log::debug!(\"add_version request rejected", "        if !acceptable_parent(&client, parent_version_id) {\n            log::debug!(\"add_version request rejected"),
     (SRV, "/// A server implementing the TaskChampion sync protocol.", "/// Whether a new version with the given parent may be appended to this client's chain.\nfn acceptable_parent(client: &crate::storage::Client, parent_version_id: VersionId) -> bool {\n    client.latest_version_id == NIL_VERSION_ID || parent_version_id == client.latest_version_id\n}\n\n/// A server implementing the TaskChampion sync protocol.")],
     "acceptance test extracted into a helper function (needs predicate inlining)")
+
+_LOOP_AV = "    let mut body = web::BytesMut::new();\n    while let Some(chunk) = payload.next().await {\n        let chunk = chunk?;\n        // limit max size of in-memory payload\n        if (body.len() + chunk.len()) > MAX_SIZE {\n            return Err(error::ErrorBadRequest(\"overflow\"));\n        }\n        body.extend_from_slice(&chunk);\n    }\n"
+_LOOP_AS = "    let mut body = web::BytesMut::new();\n    while let Some(chunk) = payload.next().await {\n        let chunk = chunk?;\n        // limit max size of in-memory payload\n        if (body.len() + chunk.len()) > MAX_SIZE {\n            return Err(error::ErrorBadRequest(\"Snapshot over maximum allowed size\"));\n        }\n        body.extend_from_slice(&chunk);\n    }\n"
+_HELPER = "/// Read a request body in its entirety, refusing to buffer more than `max_size` bytes.\npub(crate) async fn read_body(mut payload: web::Payload, max_size: usize) -> Result<web::BytesMut> {\n    use futures::StreamExt;\n    let mut body = web::BytesMut::new();\n    while let Some(chunk) = payload.next().await {\n        let chunk = chunk?;\n        if (body.len() + chunk.len()) > max_size {\n            return Err(error::ErrorBadRequest(\"body over maximum allowed size\"));\n        }\n        body.extend_from_slice(&chunk);\n    }\n    Ok(body)\n}\n\npub(crate) fn api_scope() -> Scope {"
+neu("read-body-helper", [
+    (AV, _LOOP_AV, "    let body = crate::api::read_body(payload, MAX_SIZE).await?;\n"),
+    (AV, "    mut payload: web::Payload,", "    payload: web::Payload,"),
+    (AV, "use futures::StreamExt;\n", ""),
+    (AS, _LOOP_AS, "    let body = crate::api::read_body(payload, MAX_SIZE).await?;\n"),
+    (AS, "    mut payload: web::Payload,", "    payload: web::Payload,"),
+    (AS, "use futures::StreamExt;\n", ""),
+    (API, "pub(crate) fn api_scope() -> Scope {", _HELPER)],
+    "the duplicated body-reading loop extracted (unchanged) into a shared async helper")
